@@ -52,6 +52,10 @@ func (e *Engine) queryText(o *Obligation, cvc5 bool) string {
 	if fc := e.contracts[o.Fn]; fc != nil {
 		hide = fc.Hide
 	}
+	for _, r := range o.RawPre {
+		b.WriteString(r)
+		b.WriteString("\n")
+	}
 	assumps := o.Assumps
 	if o.NoAxioms {
 		assumps = o.PathOnly
